@@ -400,23 +400,29 @@ class MembersType(Type):
         presence_bits = 0
         addition_encoders = []
 
-        try:
-            for addition in self.additions:
-                presence_bits <<= 1
-                addition_encoder = Encoder()
+        for addition in self.additions:
+            presence_bits <<= 1
+            addition_encoder = Encoder()
+
+            try:
                 self.encode_member(addition,
                                    data,
                                    addition_encoder,
                                    encode_default=True)
+            except EncodeError as e:
+                # An error in a present addition has a location and is
+                # not ignored.
+                if e.location:
+                    raise
 
-                if addition_encoder.number_of_bits > 0 or addition.name in data:
-                    addition_encoders.append(addition_encoder)
-                    presence_bits |= 1
-        except EncodeError as e:
-            # A missing addition ends the extension additions. An error
-            # in a present addition has a location and is not ignored.
-            if e.location:
-                raise
+                # A mandatory addition (of a later version) that is
+                # not in the value is absent: its presence bit stays 0
+                # and the following additions keep their positions.
+                continue
+
+            if addition_encoder.number_of_bits > 0 or addition.name in data:
+                addition_encoders.append(addition_encoder)
+                presence_bits |= 1
 
         # Return false if no extension additions are present.
         if not addition_encoders:
